@@ -62,6 +62,7 @@ func (w *World) ruleAppendStartsEmpty(r *Report, rule string, min int) {
 		type site struct {
 			call *ssa.Call
 			lenV ssa.Value
+			slot bool // an indexed store slot (reflect Index on the loop-carried container), not an append
 		}
 		var sites []site
 		for _, lp := range naturalLoops(fn) {
@@ -78,6 +79,19 @@ func (w *World) ruleAppendStartsEmpty(r *Report, rule string, min int) {
 						isApp = true
 					}
 					if !isApp {
+						// `container.Index(j)` on the loop-carried container: the slot of the
+						// pre-allocated mode, judged on the first turn like the append
+						if sc := c.Call.StaticCallee(); sc != nil && qualifiedFnName(sc) == "(reflect.Value).Index" && len(c.Call.Args) == 2 {
+							if phi, ok := c.Call.Args[0].(*ssa.Phi); ok && phi.Block() == lp.header {
+								for i, e := range phi.Edges {
+									if !lp.body[lp.header.Preds[i]] {
+										if lv := madeLenOf(e, 0); lv != nil {
+											sites = append(sites, site{c, lv, true})
+										}
+									}
+								}
+							}
+						}
 						continue
 					}
 					phi, ok := c.Call.Args[0].(*ssa.Phi)
@@ -87,7 +101,7 @@ func (w *World) ruleAppendStartsEmpty(r *Report, rule string, min int) {
 					for i, e := range phi.Edges {
 						if !lp.body[lp.header.Preds[i]] {
 							if lv := madeLenOf(e, 0); lv != nil {
-								sites = append(sites, site{c, lv})
+								sites = append(sites, site{c, lv, false})
 							}
 						}
 					}
@@ -154,6 +168,25 @@ func (w *World) ruleAppendStartsEmpty(r *Report, rule string, min int) {
 					lt := px.term(s.lenV, fr, st)
 					L, _ := px.evalTerm(lt, st)
 					results[i].met++
+					if s.slot {
+						it := px.term(s.call.Call.Args[1], fr, st)
+						I, _ := px.evalTerm(it, st)
+						is1 := func(k string, v int64) bool {
+							x, has := st.env[k]
+							return has && x.Equal(single(v))
+						}
+						a, b := it.key, lt.key
+						okS := is1("("+a+" >= "+b+")", 0) || is1("("+a+" < "+b+")", 1) || is1("("+b+" <= "+a+")", 0) || is1("("+b+" > "+a+")", 1) ||
+							is1("("+a+" != "+b+")", 1) || is1("("+a+" == "+b+")", 0) ||
+							(L != nil && I != nil && !L.Empty() && !I.Empty() && L.Min().Cmp(I.Max()) > 0)
+						if !okS {
+							results[i].bad++
+							if results[i].fact == "" {
+								results[i].fact = fmt.Sprintf("slot %s ∈ %s of a container made with length %s ∈ %s: nothing on the path puts the slot below that length", a, I, b, L)
+							}
+						}
+						continue
+					}
 					if L == nil || !L.Equal(single(0)) {
 						results[i].bad++
 						if results[i].fact == "" {
@@ -206,6 +239,9 @@ func (w *World) ruleAppendStartsEmpty(r *Report, rule string, min int) {
 		for i, s := range sites {
 			n++
 			key := fmt.Sprintf("%s · append #%d", fnName(fn), i+1)
+			if s.slot {
+				key = fmt.Sprintf("%s · slot store #%d", fnName(fn), i+1)
+			}
 			rs := results[i]
 			switch {
 			case px.Truncated:
@@ -213,10 +249,12 @@ func (w *World) ruleAppendStartsEmpty(r *Report, rule string, min int) {
 			case rs.met == 0:
 				o := r.add(rule, key, w.instrPos(s.call), true, "not reached by any explored path")
 				o.Trivial = true
+			case rs.bad > 0 && s.slot:
+				r.add(rule, key, w.instrPos(s.call), false, fmt.Sprintf("%s (%d of %d paths reaching the store on the first turn): the store indexes past the end of the container — the pre-allocation was skipped but the append mode was not chosen", rs.fact, rs.bad, rs.met))
 			case rs.bad > 0:
 				r.add(rule, key, w.instrPos(s.call), false, fmt.Sprintf("%s on %d of %d paths reaching the append: the elements are appended behind that many zero slots", rs.fact, rs.bad, rs.met))
 			default:
-				r.add(rule, key, w.instrPos(s.call), true, fmt.Sprintf("on all %d paths reaching the append the container was made with length 0", rs.met))
+				r.add(rule, key, w.instrPos(s.call), true, map[bool]string{false: fmt.Sprintf("on all %d paths reaching the append the container was made with length 0", rs.met), true: fmt.Sprintf("on all %d paths reaching the store on the first turn the slot is below the length the container was made with", rs.met)}[s.slot])
 			}
 		}
 	}
